@@ -159,6 +159,30 @@ fn expand(st: &State, depth: usize, l: &mut Local, out: &mut Vec<State>) {
             }
         }
     }
+    // derived series that keep the abscissae: derivative, smoothing, pointwise scaling
+    if xs.len() >= 2 {
+        for name in ["dydx", "savitzky_golay", "scaled_y"] {
+            l.eval();
+            l.transitions += 1;
+            let line = engeom::func1::Line1::new_mxb(0.5, 2.0);
+            match guarded(|| match name {
+                "dydx" => s.dydx(),
+                "savitzky_golay" => s.savitzky_golay(),
+                _ => s.scaled_y(&line),
+            }) {
+                Ok(r) => {
+                    let mut ok = valid(&r).is_none() && r.x.values() == xs.as_slice();
+                    if name == "scaled_y" {
+                        ok &= r.y.iter().zip(ys.iter().zip(xs.iter())).all(|(a, (y, x))| (a.is_nan() && y.is_nan()) || (*a - y * (0.5 * x + 2.0)).abs() <= 1e-12 * (1.0 + a.abs()));
+                    }
+                    l.check("derivative, smoothing and pointwise scaling keep the abscissae and the number of ordinates", name, ok, mk(name), || format!("{:?}", r));
+                }
+                Err(m) => {
+                    l.check("derivative, smoothing and pointwise scaling keep the abscissae and the number of ordinates", "panic", false, mk(name), || m.clone());
+                }
+            }
+        }
+    }
     if has_nan {
         l.bucket("series with NaN ordinates");
         return;
